@@ -1124,6 +1124,25 @@ func decoderEffects(r *rng.R, rounds int) {
 				}
 			}
 		}
+		// UseUnicodeErrors on a ",string" field (doubly quoted literal): same rule (regression for fix 30770cb)
+		{
+			base := others(r, "UseUnicodeErrors")
+			type qT struct {
+				Q string `json:"q,string"`
+			}
+			inner := []string{`\\ud800`, `a\\udc00b`, `\\uDBFFx`}[r.Intn(3)]
+			doc := `{"q":"\"` + inner + `\""}`
+			var q0, q1 qT
+			e0 := unmarshal(cfgOfBits(base), doc, &q0)
+			e1 := unmarshal(cfgOfBits(with(base, "UseUnicodeErrors")), doc, &q1)
+			count("UseUnicodeErrors", true)
+			if e1 == nil {
+				fail("UseUnicodeErrors", base, doc, "ok:"+dump(&q1), "error (lone surrogate in a ,string field)")
+			}
+			if e0 != nil || !strings.Contains(q0.Q, "\ufffd") {
+				fail("UseUnicodeErrors", base, doc, errs(e0)+":"+dump(&q0), "U+FFFD replacement with the switch off")
+			}
+		}
 		// UseUnicodeErrors: an unpaired surrogate escape is an error when on, U+FFFD when off
 		{
 			base := others(r, "UseUnicodeErrors")
